@@ -494,8 +494,21 @@ pub fn rand_text(r: &mut Rng) -> Vec<u8> {
         "\u{feff}", "\u{301}", "\\u41", "\\x41", "*", "/", "(", ")", "[", "]", ".", ",", ":", ";", "=", "!", "#", "$",
         "%", "^", "~", "`", "|", "?", "0", "else", "if", "in", "  ", "-->", "<!--",
     ];
+    // now and then a long run (hundreds to thousands of bytes, across every power-of-two length up to 8 KiB):
+    // white space, quotes and backslashes then fall on every offset class of a long literal
+    let long = r.chance(1, 14);
+    let target = if long { *r.pick(&[130usize, 257, 520, 1023, 1024, 1025, 1030, 2047, 2049, 3000, 4097, 8200]) } else { 0 };
     let n = r.range(1, 5);
     let mut t = Vec::new();
+    while t.len() < target {
+        match r.below(5) {
+            0 => t.extend(std::iter::repeat(b' ').take(r.range(1, 4))),
+            1 => t.extend_from_slice(b"\n  <li>item</li>"),
+            2 => t.extend_from_slice(r.pick(pieces).as_bytes()),
+            3 => t.extend_from_slice(b"word "),
+            _ => t.extend_from_slice("\tx \\ \" é".as_bytes()),
+        }
+    }
     for _ in 0..n {
         if r.chance(1, 12) {
             // any single ASCII byte except @ { }
